@@ -720,6 +720,14 @@ void bn_rec_reg(int8_t *naf, size_t *len, const bn_t k, size_t n, size_t w) {
 		return;
 	}
 
+	if ((size_t)k->used > d) {
+		/* The integer is longer than a recoding of length n can represent. */
+		*len = 0;
+		RLC_FREE(t);
+		RLC_THROW(ERR_NO_VALID);
+		return;
+	}
+
 	memset(naf, 0, *len);
 	dv_zero(t, d);
 	dv_copy(t, k->dp, k->used);
